@@ -811,6 +811,15 @@ func (u *Unit) callFunc(ev *Ev, x *ast.CallExpr, f *types.Func, recv *Value) Val
 			c = alt
 		}
 	}
+	if len(u.iterLists) > 0 && key == "(*container/list.List).Remove" && len(args) == 1 && args[0].T != "" {
+		// the traversal idiom reads the successor BEFORE it unlinks the current element (Remove clears the element's links)
+		st.lets["listiter_removed:"+args[0].T] = boolV("true")
+	}
+	if len(u.iterLists) > 0 && key == "(*container/list.Element).Next" && recv != nil && recv.T != "" {
+		if _, gone := st.lets["listiter_removed:"+recv.T]; gone {
+			u.emit(st, "listiter_next_after_remove@"+ord, "false", "Next() of an element that was already removed from its list is nil: the traversal would stop here and skip the rest of the list")
+		}
+	}
 	if len(u.iterLists) > 0 && recv != nil && (key == "(*container/list.List).PushBack" || key == "(*container/list.List).PushFront") {
 		for _, l := range u.iterLists {
 			u.emit(st, "listiter_nopush@"+ord, not(app("=", recv.T, l)), "no push onto the list being traversed")
